@@ -316,6 +316,22 @@ func genC02(e *emitter, tier string) {
 		}
 		e.emit(historyCase("routing:"+hg.name, loader, g, steps))
 	}
+	// a dynamic flatten driven by Shape of an input that declares no shape, run with alternating batch sizes
+	for _, how := range []string{"", "dims"} {
+		i64 := func(v ...int) *TJ { return idxT("i64", []int{len(v)}, v) }
+		gs := &GraphJ{Inputs: []VInfoJ{{Name: "x", Dt: "f32", NoShape: true, How: how}},
+			Inits: []InitJ{{Name: "zero", T: i64(0)}, {Name: "minus1", T: i64(-1)}, {Name: "w", T: smallT("f32", []int{6, 2}, 3)}},
+			Nodes: []NodeJ{{Op: "Shape", Ins: []string{"x"}, Outs: []string{"s"}}, {Op: "Gather", Ins: []string{"s", "zero"}, Outs: []string{"n"}},
+				{Op: "Concat", Attrs: []Attr{{Name: "axis", Type: "i", I: 0}}, Ins: []string{"n", "minus1"}, Outs: []string{"tgt"}},
+				{Op: "Reshape", Ins: []string{"x", "tgt"}, Outs: []string{"flat"}}, {Op: "MatMul", Ins: []string{"flat", "w"}, Outs: []string{"y"}},
+				{Op: "Softmax", Ins: []string{"flat"}, Outs: []string{"sm"}}},
+			Outputs: []string{"y", "s", "tgt", "sm"}}
+		x := func(n int) []NamedT { return []NamedT{{"x", smallT("f32", []int{n, 2, 3}, n)}} }
+		e.emit(historyCase("shape-of-undeclared-input", func() (*gonnx.Model, error) { return loadModel(gs) }, gs,
+			[]HistStep{{Inputs: x(1)}, {Inputs: x(3)}, {Inputs: x(1)}, {Inputs: x(2)}, {Reuse: true}}))
+		e.emit(historyCase("shape-of-undeclared-input", func() (*gonnx.Model, error) { return loadModel(gs) }, gs,
+			[]HistStep{{Inputs: x(3)}, {Inputs: x(1)}, {Inputs: x(3)}}))
+	}
 	// inputs of the same shape that differ only in the MIDDLE of a large tensor (rows 5-7 of 13, columns 5-7
 	// of 13), one call after the other: a Model that recognises "the same inputs as last time" by a summary of
 	// the tensor (a printed form, the first and last elements, a sampled hash) answers with the previous result
